@@ -15,6 +15,7 @@ import (
 func init() { register("C14", propC14) }
 
 func propC14(c *Ctx) propInfo {
+	c.statelessCodecs("E17.stateless", excStateless, "wallet", "boc")
 	const R = "E8.mustcheck"
 	ed := requiredCheck{name: "ed25519.Verify(publicKey, hash, signature)", src: callResult("crypto/ed25519.Verify"), kind: "bool"}
 	if f := c.mustFn(R, "wallet", "SignedMsgBody.Verify"); f != nil {
